@@ -52,6 +52,9 @@ def run(ctx):
         dt = torch.float32 if exact else rng.choice([torch.float32, torch.float16, torch.bfloat16])
         torch.manual_seed(rng.getrandbits(30))
         fm, xs = make(rng, kind, dt)
+        if kind == "linear" and not exact and rng.random() < 0.12:
+            # many rows (a gradient accumulated by blocks must still cover every row)
+            xs = [rng.choice([1029, 1500, 2050, 3073])] + xs[-1:] if rng.random() < 0.5 else [rng.choice([3, 5]), rng.choice([411, 613])] + xs[-1:]
         wq = rng.choice(["qint2", "qint4", "qint8", "qfloat8", "qfloat8_e4m3fn", "qfloat8_e5m2"])
         aq = rng.choice([None, None, "qint8", "qfloat8_e4m3fn", "qfloat8_e5m2"])
         if exact:
